@@ -95,10 +95,16 @@ def explore(tier, seed, model_ok=True, focus=False):
     from props.farm_locked_common import explore_locked, merge_into, monitors_c07, nontrivial_c07
     ex = explore_farm("C07", tier, seed, monitor, nontrivial, RULE, model_ok, focus)
     ex2 = explore_locked("C07", tier, seed, monitors_c07, nontrivial_c07, RULE, model_ok, focus, scale=0.5)
-    return merge_into(ex, ex2)
+    ex = merge_into(ex, ex2)
+    from props import staking_pos_common as spc
+    ex3 = spc.explore_staking_pos("C07", tier, seed, spc.monitors_c07, spc.nontrivial_c07, spc.RULE, model_ok, focus, scale=0.5)
+    return spc.merge_exploration(ex, ex3)
 
 
 def replay(data):
+    if data.get("replay", {}).get("system") == "stakingpos":
+        from props import staking_pos_common as spc
+        return spc.replay_staking_pos(data, spc.monitors_c07)
     if data.get("replay", {}).get("system") == "farm-locked":
         from props.farm_locked_common import replay_locked, monitors_c07
         return replay_locked(data, monitors_c07)
